@@ -29,7 +29,7 @@ MUTANTS = [
     ('C01', 'supp/nast.py', r"            for df in node\.args\.kw_defaults:\n                df and self\.visit\(df\)\n            for a in getattr", "            for a in getattr", 'C01-R1'),
     ('C01', 'supp/nast.py', r"get_expr_end\(it\.context_expr\), np\(name\), node\)", "np(node.body[0]), np(name), node)", 'C01-R4'),
     ('C01', 'supp/scope.py', r"enumerate\(getattr\(node\.args, 'posonlyargs', \[\]\) \+ node\.args\.args\)", "enumerate(node.args.args)", 'C01-R2'),
-    ('C01', 'supp/nast.py', r"    def visit_Global\(self, node\):\n        # type: \(ast\.Global\) -> None\n        self\.flow\.scope\.globals\.update\(node\.names\)", "    def visit_Global(self, node):\n        # type: (ast.Global) -> None\n        pass", 'C01-R2'),
+    ('C01', 'supp/nast.py', r"    def visit_Global\(self, node\):\n        # type: \(ast\.Global\) -> None\n        if self\.flow\.scope is not self\.top:[^\n]*\n            self\.flow\.scope\.globals\.update\(node\.names\)", "    def visit_Global(self, node):\n        # type: (ast.Global) -> None\n        pass", 'C01-R2'),
     ('C01', 'supp/scope.py', r"elif name\.name in self\.scope\.nonlocals:", "elif False:", 'C01-R2'),
     ('C01', 'supp/scope.py', r"if getattr\(body\[0\], 'decorator_list', None\):", "if type(body[0]) in (FunctionDef, ClassDef) and body[0].decorator_list:", 'C01-R4'),
     ('C01', 'supp/nast.py', r"AssignedName\(name\.id, get_first_body_node_loc\(node\.body\), np\(name\), node\.iter\)", "AssignedName(name.id, np(node.body[0]), np(name), node.iter)", 'C01-R4'),
